@@ -153,6 +153,7 @@ class Body:
         self._defs = None
         self._succ = None
         self._pred = None
+        self._live = None
 
     # ---- CFG ----
     def term(self, bb):
@@ -201,15 +202,26 @@ class Body:
         return [i for i in range(self.nblocks) if self.blocks[i]["term"]["k"] == "return"]
 
     def reachable_blocks(self):
-        seen = {0}
-        st = [0]
-        while st:
-            b = st.pop()
-            for s in self.succ[b]:
-                if s not in seen:
-                    seen.add(s)
-                    st.append(s)
-        return seen
+        """Blocks reachable from the entry along normal edges, with variant tracking (a
+        `switch discriminant(x)` right after `x = Enum::Variant{..}` follows one arm only:
+        removes async_trait's `if let Some(r) = None::<T> { return r }` prologue)."""
+        if self._live is None:
+            from . import cfg
+            self._live = set()  # guard against recursion through succ
+            plain = {0}
+            st = [0]
+            while st:
+                b = st.pop()
+                for s in self.succ[b]:
+                    if s not in plain:
+                        plain.add(s)
+                        st.append(s)
+            self._live = plain
+            try:
+                self._live = cfg.explore(self, 0)[0]
+            except RecursionError:
+                self._live = plain
+        return self._live
 
     # ---- calls ----
     @property
